@@ -136,58 +136,10 @@ def run(ctx, report: Report) -> None:
 
     # ---- R3 --------------------------------------------------------------------------------------------
     r3 = report.rule('C01-R3', 'tokenizer, dispatch and regex-group tables agree', floor=13)
-    _, ps = src.func('css_parser.CSSParser.parse_selectors')
-    token_names = [r.name.split(':', 1)[1] for r in inv.regexes if r.kind in ('token', 'special-token')]
-    dispatch = {}        # key -> list of handler method names called in that branch
-    for n in ast.walk(ps):
-        if isinstance(n, ast.If) and isinstance(n.test, ast.Compare) and isinstance(n.test.left, ast.Name) \
-                and n.test.left.id == 'key':
-            v = inv.folder.try_ev('css_parser', n.test.comparators[0], default=None)
-            keys = [v] if isinstance(v, str) else list(v or [])
-            handlers = [call_name(c).split('.')[-1] for st in n.body for c in ast.walk(st)
-                        if isinstance(c, ast.Call) and call_name(c).startswith('self.parse_')]
-            for k in keys:
-                dispatch[k] = handlers
-    for t in token_names:
-        ok = t in dispatch
-        r3.instance({'token': t, 'dispatched': ok}, key='tok-' + t)
-        r3.obligation(ok)
-        if not ok:
-            r3.violation(f'token {t} not dispatched', pmod.where(ps),
-                         f'token {t!r} is produced by the tokenizer but parse_selectors has no branch for it: that part of '
-                         f'the selector is silently dropped')
-    for k in dispatch:
-        if k not in token_names:
-            r3.instance({'dispatch_key': k, 'produced_by_tokenizer': False}, key='key-' + k)
-            r3.violation(f'dispatch key {k} never produced', pmod.where(ps),
-                         f'parse_selectors dispatches on {k!r} but no token pattern carries that name')
-    # groups used by each handler exist in every regex that can carry the key
-    groups_of = {r.name.split(':', 1)[1]: set(sp.parse(r.pattern, r.flags).state.groupdict)
-                 for r in inv.regexes if r.kind in ('token', 'special-token')}
-    for k, handlers in sorted(dispatch.items()):
-        if k not in groups_of:
-            continue
-        for h in handlers:
-            hfn = pmod.functions.get(f'CSSParser.{h}')
-            if hfn is None:
-                continue
-            mparam = hfn.args.args[2].arg if len(hfn.args.args) > 2 else 'm'
-            used = set()
-            for c in ast.walk(hfn):
-                if isinstance(c, ast.Call) and isinstance(c.func, ast.Attribute) and c.func.attr == 'group' \
-                        and isinstance(c.func.value, ast.Name) and c.func.value.id == mparam and c.args \
-                        and isinstance(c.args[0], ast.Constant) and isinstance(c.args[0].value, str):
-                    used.add(c.args[0].value)
-            missing = sorted(g for g in used if g not in groups_of[k])
-            # groups that only exist for a sibling key handled by the same function are read through groupdict/get
-            r3.instance({'key': k, 'handler': h, 'groups_read': sorted(used), 'missing_in_regex': missing}, key=f'{k}|{h}')
-            r3.obligation(not missing)
-            for g in missing:
-                # `of` is only defined for pseudo_nth_child; the handler guards it by postfix
-                if g == 'of' and k == 'pseudo_nth_type':
-                    continue
-                r3.violation(f'{k} -> {h} group {g}', pmod.where(hfn),
-                             f'{h} reads m.group({g!r}) but the {k} token pattern defines no such group (IndexError at parse time)')
+    # every token kind the tokenizer can produce has a handler that records it (or refuses it), and the handler reads only groups
+    # the token's pattern defines: parse_selectors interpreted on one token of each kind
+    from .sem import single_token_table
+    single_token_table(ctx, r3)
     # pseudo-class tables: what `:name` does to the selector under construction (partial evaluation of parse_pseudo_class)
     from .sem import pseudo_table
     _, pc = src.func('css_parser.CSSParser.parse_pseudo_class')
@@ -274,8 +226,6 @@ def run(ctx, report: Report) -> None:
     r7 = report.rule('C01-R7', 'a comma resets every piece of per-alternative parser state (parsed token sequences)', floor=5)
     from .sem import comma_tables
     comma_tables(ctx, r7)
-    from .sem import single_token_table
-    single_token_table(ctx, r7)
 
     # ---- R8 --------------------------------------------------------------------------------------------
     r8 = report.rule('C01-R8', 'class splitting and emptiness use the CSS whitespace set', floor=1)
